@@ -5,7 +5,7 @@ import e2e, tablegen
 import c04gen as G
 
 PROP = "C04"
-HEADER = "From Coq Require Import List Bool Arith.\nImport ListNotations.\nFrom DV Require Import Lifetimes.Model Lifetimes.Check Lifetimes.Struct."
+HEADER = "From Coq Require Import List Bool Arith.\nImport ListNotations.\nFrom DV Require Import Lifetimes.Model Lifetimes.Check Lifetimes.Struct Lifetimes.SpecExec."
 KNOWN_MSG = ("should explicitly include this lifetime bound", "Found elided lifetime in return type")
 
 
@@ -46,7 +46,7 @@ def show_edges(m, edges):
     return out
 
 
-def rustc_crosscheck(ctx, bridges):
+def rustc_crosscheck(ctx, bridges, goals):
     """Is the reading of Rust's rules in c04gen.rust_outlives what rustc itself accepts?  One plain-Rust crate per bridge."""
     d = os.path.join(BUILD, "c04_rustc"); os.makedirs(d, exist_ok=True)
     checked = disagreements = static_bridged = 0
@@ -68,6 +68,7 @@ def rustc_crosscheck(ctx, bridges):
         bad_lines = {int(x) for x in re.findall(r"b%d\.rs:(\d+):\d+: error" % bi, p.stderr)}
         if any(l <= base for l in bad_lines):
             raise MachineryError("C04 rustc cross-check: the plain-Rust rendering of the definitions does not compile\n" + p.stderr[:1500])
+        goals.append(f"forallb (udepth_le {G.c_defs(D)} 3) (seq 0 {len(G.ORDER)})")      # the hypothesis of C04_spec_executable for fuel 4
         reach = {m["name"]: G.rust_outlives(D, m) for m in methods}
         full = {m["name"]: G.rust_outlives(D, m, with_static=True) for m in methods}
         for i, ((tag, r, x), _f) in enumerate(fns):
@@ -77,6 +78,10 @@ def rustc_crosscheck(ctx, bridges):
             checked += 1
             if full_ok and not spec_ok:
                 static_bridged += 1          # 'x: 'static: 'r -- outside C04's statement (DESIGN C04)
+            else:
+                # the Coq specification itself (Spec.outlives through its executable form) against rustc's verdict
+                mm = next(m for m in methods if m["name"] == tag)
+                goals.append(f"agree_rustc 4 {G.c_defs(D)} {G.c_sig(mm)} {r} {x} {cbool(rustc_ok)}")
             if rustc_ok != full_ok:
                 disagreements += 1
                 first = first or {"fn": _f, "rustc_accepts": rustc_ok, "spec_says_outlives": full_ok, "defs": G.plain_defs(D)}
@@ -231,7 +236,7 @@ def check(ctx, replay=None):
     if stats["unusable_bridges"] * 5 > nb:
         raise MachineryError(f"C04: {stats['unusable_bridges']} of {nb} generated bridges were not usable (unexpected lowering errors)")
     # ---- the reading of Rust's rules against rustc itself
-    stats["rustc_pairs_checked"], stats["rustc_pairs_static_bridged"] = rustc_crosscheck(ctx, [(D, ms) for D, ms in accepted_bridges][: (3 if ctx.quick() else 100)])
+    stats["rustc_pairs_checked"], stats["rustc_pairs_static_bridged"] = rustc_crosscheck(ctx, [(D, ms) for D, ms in accepted_bridges][: (3 if ctx.quick() else 100)], goals)
     # ---- what the managed backends attach
     import c04_backends
     bstats = c04_backends.run(ctx, accepted_bridges[: (3 if ctx.quick() else 60)], violate, goals)
